@@ -1,5 +1,6 @@
 import RsslVerif.Model.ConstEvalWf
 import RsslVerif.Model.ConstPos
+import RsslVerif.Model.ConstBinop
 import RsslVerif.Driver.Util
 /-! Line-protocol front end of the C13 model: `C13.eval <ir s-expression> [src:...]`. -/
 namespace RsslVerif.Driver.C13
@@ -336,12 +337,66 @@ def handleEnum (aux : String) : String :=
       "under:" ++ (if u == .UInt32 then "uint" else "int") ++ " vals:" ++ ",".intercalate (vals.map showConst)
     | .error e => enumErrLabel e
 
+/-! ## mixed operand kinds (`C13.mix <source tree> <IR> [kinds:<BinOp>:<T>:<T>]`) -/
+section Mix
+open RsslVerif.Model.ConstBinop
+open RsslVerif.Gen.RankTable (Scalar)
+
+def shape? (s : String) : Option OpShape :=
+  match s with
+  | "bool" => some (.scalar .bool)
+  | "lit" => some (.scalar .intLiteral)
+  | "int" => some (.scalar .int32)
+  | "uint" => some (.scalar .uInt32)
+  | "flit" => some (.scalar .floatLiteral)
+  | "half" => some (.scalar .float16)
+  | "float" => some (.scalar .float32)
+  | "double" => some (.scalar .float64)
+  | _ => if s.startsWith "enum" then (if s.endsWith ":uint" then some .enumUInt else if s.endsWith ":int" then some .enumInt else none) else none
+
+def scalarT : RsslVerif.Gen.RankTable.Scalar → String
+  | .bool => "bool" | .intLiteral => "lit" | .int32 => "int" | .uInt32 => "uint"
+  | .floatLiteral => "flit" | .float16 => "half" | .float32 => "float" | .float64 => "double"
+
+/-- one type of the `kinds:` field (an enum type is two `:`-separated tokens) -/
+def takeT : List String → Option (String × List String)
+  | a :: b :: r => if a.startsWith "enum" then some (a ++ ":" ++ b, r) else some (a, b :: r)
+  | [a] => if a.startsWith "enum" then none else some (a, [])
+  | [] => none
+
+def mixCt (kinds : String) : String :=
+  match kinds.splitOn ":" with
+  | "kinds" :: o :: rest =>
+    (match RsslVerif.Gen.TypingTables.BinOp.ofName? o, takeT rest with
+     | some op, some (lt, rest) =>
+       (match takeT rest with
+        | some (rt, []) =>
+          (match shape? lt, shape? rt with
+           | some l, some r =>
+             (match commonTy op l r with
+              | some (.scalar s) => " ct:" ++ scalarT s
+              | some .left => " ct:" ++ lt
+              | some .right => " ct:" ++ rt
+              | none => " ct:refused")
+           | _, _ => " bad-request")
+        | _ => " bad-request")
+     | _, _ => " bad-request")
+  | _ => " bad-request"
+
+end Mix
+
 def handle (op : String) (args : List String) : String :=
   match op, args with
   | "C13.eval", tree :: _ =>
     match parseTree tree with
     | some e => showRes (eval e)
     | none => "bad-request"
+  | "C13.mix", _ :: tree :: rest =>
+    -- the value of the IR the type checker built, and the type it converted both operands to
+    (match parseTree tree with
+     | some e => showRes (eval e) ++ (match rest with | k :: _ => mixCt k | [] => "")
+     | none => "bad-request")
+  | "C13.mix", _ => "unsupported: refused by the front end, no IR"
   | "C13.hyp", tree :: _ =>
     -- the hypotheses of `consteval_agrees` / `consteval_no_panic`, evaluated on a tree the type checker emitted
     match parseTree tree with
